@@ -696,7 +696,8 @@ ra_writeable(RegisterTable *t, RegisterAddress addr, RegisterOffset n)
         }
         if (register_area_is_writeable(&t->area[i]) == false) {
             rv.code = REG_ACCESS_READONLY;
-            rv.address = addr;
+            /* First address of the request inside the read-only area */
+            rv.address = (addr > t->area[i].base) ? addr : t->area[i].base;
             return rv;
         }
     }
